@@ -97,6 +97,34 @@ Definition shapes (n : nat) (C : mat) (X1 dX1 X2 : list vec) : Prop :=
   Forall (fun x => length x = n) X1 /\ Forall (fun x => length x = n) dX1 /\ Forall (fun x => length x = n) X2 /\
   length dX1 = length X1 /\ length C = length X1.
 
+
+(* ------------------------------------------------------------------ wsumD / wsumP are the tangents of the model's own weighted sum
+   (C05Model.wsumk) run on dual numbers: coefficients and X2 constant, X1 perturbed by eps*dX1 *)
+Definition zipdual (X dX : list vec) : list (list D) := map (fun p => combine (fst p) (snd p)) (combine X dX).
+
+Lemma combine_map2 {S T U V} (f : S -> U) (g : T -> V) l1 : forall l2,
+  combine (map f l1) (map g l2) = map (fun p => (f (fst p), g (snd p))) (combine l1 l2).
+Proof. induction l1; destruct l2; simpl; auto. rewrite IHl1. auto. Qed.
+
+Lemma snd_lsumD l : snd (lsum D dzero dadd l) = lsumA (map snd l).
+Proof. induction l; simpl; auto. rewrite IHl. auto. Qed.
+
+Theorem wsumD_is_tangent kD C X1 dX1 X2 :
+  snd (wsumk D dzero dadd dmul kD (map cstv C) (zipdual X1 dX1) (map cstv X2)) = wsumD kD C X1 dX1 X2.
+Proof.
+  unfold C05Model.wsumk, wsumD, zipdual. rewrite snd_lsumD, combine_map2, !map_map.
+  apply lsum_ext. intros [[x dx] crow] _. cbn [fst snd]. rewrite snd_lsumD. unfold cstv at 1. rewrite combine_map2, !map_map.
+  apply lsum_ext. intros [c z] _. cbn [fst snd]. rewrite snd_dmul. cbn [fst snd]. ring.
+Qed.
+
+Theorem wsumP_is_tangent kD C X1 X2 :
+  snd (wsumk D dzero dadd dmul kD (map cstv C) (map cstv X1) (map cstv X2)) = wsumP kD C X1 X2.
+Proof.
+  unfold C05Model.wsumk, wsumP. rewrite snd_lsumD, combine_map2, !map_map.
+  apply lsum_ext. intros [x crow] _. cbn [fst snd]. rewrite snd_lsumD. change (cstv crow) with (map (fun a : A => (a, zero)) crow). rewrite combine_map2, !map_map.
+  apply lsum_ext. intros [c z] _. cbn [fst snd]. rewrite snd_dmul. cbn [fst snd]. ring.
+Qed.
+
 (* ------------------------------------------------------------------ vectors *)
 Lemma dot_vscale c u v : dotA (vscaleA c u) v = c * dotA u v.
 Proof. revert v. induction u; destruct v; simpl; try ring. rewrite IHu. ring. Qed.
